@@ -301,6 +301,77 @@ func (p *Runner) line(l string) string {
 	return p.fieldLine(ws)
 }
 
+// importBits runs Field.Import (hooked field) or API.Import (one request per shard, PQL field).
+func (p *Runner) importBits(spec string, clear bool) string {
+	var rows, cols []uint64
+	var stamps []*time.Time
+	if spec != "-" {
+		for _, b := range strings.Split(spec, ";") {
+			f := strings.Split(b, ":")
+			if len(f) != 3 {
+				return "bad-op"
+			}
+			r, err1 := strconv.ParseUint(f[0], 10, 64)
+			c, err2 := strconv.ParseUint(f[1], 10, 64)
+			if err1 != nil || err2 != nil {
+				return "bad-op"
+			}
+			var tp *time.Time
+			if f[2] != "-" {
+				t, ok := Parse(f[2])
+				if !ok {
+					return "bad-op"
+				}
+				tp = &t
+			}
+			rows, cols, stamps = append(rows, r), append(cols, realCol(c)), append(stamps, tp)
+		}
+	}
+	if clear {
+		vh.Count("import-clear")
+	} else {
+		vh.Count("import-set")
+	}
+	if p.mode == 1 {
+		if err := p.f.Import(rows, cols, stamps, pilosa.OptImportOptionsClear(clear)); err != nil {
+			vh.Count("import-err")
+			return "err"
+		}
+		return "ok"
+	}
+	failed := false
+	for shard := uint64(0); shard < 2; shard++ {
+		req := &pilosa.ImportRequest{Index: index, Field: p.fname, Shard: shard}
+		hasTime := false
+		for i := range cols {
+			if cols[i]/sw != shard {
+				continue
+			}
+			req.RowIDs = append(req.RowIDs, rows[i])
+			req.ColumnIDs = append(req.ColumnIDs, cols[i])
+			ts := int64(0)
+			if stamps[i] != nil {
+				ts, hasTime = stamps[i].UnixNano(), true
+			}
+			req.Timestamps = append(req.Timestamps, ts)
+		}
+		if len(req.ColumnIDs) == 0 {
+			continue
+		}
+		if !hasTime {
+			req.Timestamps = nil
+		}
+		if err := p.s.API.Import(context.Background(), req, pilosa.OptImportOptionsClear(clear)); err != nil {
+			failed = true
+		}
+	}
+	if failed {
+		vh.Count("import-err")
+		return "err"
+	}
+	return "ok"
+}
+
 func bucket(n int) int {
 	switch {
 	case n == 0:
@@ -427,6 +498,26 @@ func (p *Runner) fieldLine(ws []string) string {
 			return "err:clear"
 		}
 		return boolS(res[0].(bool))
+	case ws[0] == "import" && len(ws) == 3:
+		if ws[1] != "0" && ws[1] != "1" {
+			return "bad-op"
+		}
+		return p.importBits(ws[2], ws[1] == "1")
+	case ws[0] == "mkview" && len(ws) == 2:
+		if !goodName(ws[1]) {
+			return "bad-op"
+		}
+		if p.mode == 1 {
+			if err := pilosa.VerifC19PeerCreateView(p.f, ws[1]); err != nil {
+				return "err:mkview"
+			}
+			return "ok"
+		}
+		msg := &pilosa.CreateViewMessage{Index: index, Field: p.fname, View: ws[1]}
+		if err := pilosa.VerifC19ReceiveMessage(p.s.Server, msg); err != nil {
+			return "err:mkview"
+		}
+		return "ok"
 	case ws[0] == "scan" && len(ws) == 3:
 		r, err1 := strconv.ParseUint(ws[1], 10, 64)
 		c, err2 := strconv.ParseUint(ws[2], 10, 64)
